@@ -140,6 +140,9 @@ class ProgGen(Gen):
         res = f.results[0]
         cx = self.body_ctx(f, False)
         body = []
+        kinds = r.sample(['explicit-str', 'explicit-int', 'index', 'divide', 'assert', 'slice'], 3) if r.random() < 0.6 else \
+            r.sample(['explicit-str', 'explicit-int', 'explicit-str', 'explicit-int'], 3)
+        rt_kinds = any(not k.startswith('explicit') for k in kinds)
         ndef = r.randint(1, 3)
         rec_at = r.randrange(ndef)
         for di in range(ndef):
@@ -150,10 +153,17 @@ class ProgGen(Gen):
                 sv, si = Var(e.slot + 0, 'es', STR), None
                 slot = self.P.slot()
                 xs = [Var(slot, 'es', STR), Var(slot, 'ei', INT), Var(slot, 'ee', 'any')]
-                ts = TypeSwitch('', xs, VarRef(e), [
-                    TCase([STR], [Print(True, [StrLit(b"recovered string"), VarRef(xs[0])])]),
-                    TCase([INT], [Print(True, [StrLit(b"recovered int"), VarRef(xs[1])])]),
-                    TCase([], [Print(True, [StrLit(b"recovered runtime error")])], default=True)])
+                # llgo's run-time panic values are plain strings, not runtime.Error (finding recover:runtime-error-value-is-string,
+                # replayed from corpus/C01): a function whose body may raise a run-time panic does not distinguish strings
+                if rt_kinds and not self.rt_err_switch:
+                    tcs = [TCase([INT], [Print(True, [StrLit(b"recovered int"), VarRef(xs[1])])]),
+                           TCase([], [Print(True, [StrLit(b"recovered something else")])], default=True)]
+                    xs = [xs[1], xs[2]]
+                else:
+                    tcs = [TCase([STR], [Print(True, [StrLit(b"recovered string"), VarRef(xs[0])])]),
+                           TCase([INT], [Print(True, [StrLit(b"recovered int"), VarRef(xs[1])])]),
+                           TCase([], [Print(True, [StrLit(b"recovered runtime error")])], default=True)]
+                ts = TypeSwitch('', xs, VarRef(e), tcs)
                 lit.body = [Decl([e], [Recover()]),
                             If([], Bin('ne', VarRef(e), Zero('any')), [ts, Assign([VarRef(res)], [self.int_expr(cx, k, 1)])],
                                [Print(True, [StrLit(b"no panic"), VarRef(res)])] if r.random() < 0.7 else [])]
@@ -171,7 +181,6 @@ class ProgGen(Gen):
         arr = Var(self.P.slot(), 'arr', ('slice', k))
         z = Var(self.P.slot(), 'z', k)
         y = Var(self.P.slot(), 'y', 'any')
-        kinds = r.sample(['explicit-str', 'explicit-int', 'index', 'divide', 'assert', 'slice'], 3)
         cases = []
         for ci, pk in enumerate(kinds):
             if pk == 'explicit-str':
@@ -489,6 +498,7 @@ class ProgGen(Gen):
         r = self.rng
         P = self.P
         self.recovering = []
+        self.rt_err_switch = getattr(self, 'rt_err_switch', False)
         self.mret = [tint(self.kind())]
         for _ in range(r.randint(1, 3)):
             d = self.make_struct()
